@@ -33,6 +33,8 @@ func init() {
 			{ID: "C11-R7", Title: "top-level globals are not members of a module", Floor: 1, Run: c11r7},
 			{ID: "C11-R8", Title: "Config owns its maps", Floor: 2, Run: configOwnsItsMaps},
 			{ID: "C11-R9", Title: "VMs are not recycled across configurations", Floor: 1, Run: vmNotPooled},
+			{ID: "C11-R10", Title: "Import returns a module object built in that call (shared with C14)", Floor: 2, Run: importersReturnFreshModules},
+			{ID: "C11-R11", Title: "options record into the deferred tables on every path", Floor: 2, Run: optionsRecordUnconditionally},
 		},
 	})
 }
